@@ -96,7 +96,11 @@ def r1_phase(ctx):
             node_ = ast.parse(what, mode="eval").body
         except SyntaxError:
             node_ = None
-        if isinstance(node_, (ast.Name, ast.Attribute, ast.Subscript, ast.Call)) and any(U(x) == what for x in ast.walk(st.test)):
+        if isinstance(node_, (ast.Name, ast.Attribute, ast.Subscript, ast.Call)) and any(U(x) == what for x in ast.walk(bret.value)) and not any(U(x) == what for x in ast.walk(st.test)):
+            ctx.violation("C05.R1", bf, bret, f"_is_burn_in() reads `{what}` while the first-iteration-with-memory test and the step size read `{N}`: two copies of the burn-in length that can "
+                          "disagree (e.g. after load_parameters), so iterations the schedule counts as 'with memory' stay memory-less")
+            ctx.ok("C05.R1", f, st, "(not decided: _is_burn_in reads another source)", construct="memory-less guard (skipped)")
+        elif isinstance(node_, (ast.Name, ast.Attribute, ast.Subscript, ast.Call)) and any(U(x) == what for x in ast.walk(st.test)):
             # a run-time quantity other than the iteration counter and the burn-in length takes part in the decision
             ctx.violation("C05.R1", f, st, f"the memory-less decision also depends on `{what}`, which is neither the iteration number nor the burn-in length: "
                           "the statistics do not follow the stochastic-approximation schedule whenever it flips the test")
